@@ -154,6 +154,11 @@ def to_sfloat(v):
     raise Unsupported(f'cannot convert {type(v).__name__} to float')
 
 
+def sfloat_ite(c, a, b):
+    a, b = to_sfloat(a), to_sfloat(b)
+    return SFloat(s_ite(c, a.kind, b.kind), s_ite(c, a.val, b.val))
+
+
 def sfloat_to_int(v):
     v = to_sfloat(v)
     if v.is_fin() is not True:
